@@ -67,11 +67,13 @@ func EncodeOpts(data []byte, o Options) []byte {
 	full := 4096 - ec // value of next at which the table is full
 	var w bitWriter
 	width, next := 9, firstCode
-	table := map[int]int{}
+	// dictionary as a trie in first-child/next-sibling form; 0 = none (no entry has code 0 as a child)
+	var firstChild, nextSib [4096]int16
+	var char [4096]byte
 	reset := func() {
 		w.write(clearCode, width)
 		width, next = 9, firstCode
-		table = map[int]int{}
+		firstChild, nextSib = [4096]int16{}, [4096]int16{}
 	}
 	// after every data code the encoder's table grows by one entry
 	grow := func() {
@@ -85,14 +87,17 @@ func EncodeOpts(data []byte, o Options) []byte {
 		cur := int(data[0])
 		sent := 0
 		for _, b := range data[1:] {
-			k := cur<<8 | int(b)
-			if c, ok := table[k]; ok {
+			c := int(firstChild[cur])
+			for c != 0 && char[c] != b {
+				c = int(nextSib[c])
+			}
+			if c != 0 {
 				cur = c
 				continue
 			}
 			w.write(cur, width)
 			sent++
-			table[k] = next
+			char[next], nextSib[next], firstChild[cur] = b, firstChild[cur], int16(next)
 			grow()
 			if next >= full || (o.ClearEvery > 0 && sent%o.ClearEvery == 0) {
 				reset()
